@@ -33,12 +33,13 @@ type syncRun struct {
 	script []string
 	nreq   atomic.Int64
 	holdCh chan struct{}
+	tokCh  chan struct{}
 }
 
 func newSyncRun(storeTo int) *syncRun {
 	now := time.Now().UnixNano()
 	t0 := now - int64(5*time.Second) - int64(sN-1)*int64(time.Second)
-	r := &syncRun{holdCh: make(chan struct{})}
+	r := &syncRun{holdCh: make(chan struct{}), tokCh: make(chan struct{}, 8)}
 	r.chain = vhdr.Chain("A", sN, t0, int64(time.Second), 0)
 	r.fork = vhdr.Chain("A", sN, t0, int64(time.Second), 9)
 	r.st = newStoreWith(r.chain, 1, storeTo)
@@ -60,6 +61,8 @@ func newSyncRun(storeTo int) *syncRun {
 			return nil, fmt.Errorf("scripted getter: upstream gave up: %w", context.Canceled)
 		case b == "hold": // a slow getter: blocks until the harness releases it, then serves the range
 			<-r.holdCh
+		case b == "holdtok": // the same, one token per request (several held requests in one case)
+			<-r.tokCh
 		case b == "empty":
 			return nil, nil
 		case b == "shift": // contract violation: does not start at from+1
@@ -225,8 +228,23 @@ func runSyncer(prop, tier string, r *rng) {
 			burstCase(prop, heads)
 		}
 		appendRaceCase(prop, 20, 30)
+		// several pending ranges, later heads extending the last one beyond the running sync's target, on a store whose
+		// flush loop is busy (slow commits): what the sync loop hands to the store must not change under its feet
+		for _, b := range []int{1, 2, 3} {
+			slowStoreDelay, slowStoreBatch = 4*time.Millisecond, b
+			prefixOfRangeCase(prop, 10, 20, 3)
+		}
+		prefixOfRangeCase(prop, 12, 30, 2)
 		dupHeadCase(prop, 20, 30, 35)
 		dupHeadCase(prop, 20, 21, 40)
+	}
+	if prop == "C03" {
+		// what the sync loop hands to the store must be what ends up stored (several pending ranges, a busy flush loop)
+		burstCase(prop, []int{15, 40, 41, 42})
+		for _, b := range []int{1, 2} {
+			slowStoreDelay, slowStoreBatch = 4*time.Millisecond, b
+			prefixOfRangeCase(prop, 10, 20, 3)
+		}
 	}
 	// fixed scenarios
 	syncerCase(prop, 10, 0, nil, []string{"gossip valid 11", "gossip valid 12", "gossip valid 20", "wait", "gossip valid 15", "gossip forged 25", "gossip valid 30", "wait"})
@@ -464,6 +482,54 @@ func dupHeadCase(prop string, storeTo, n1, n2 int) {
 	werr := run.s.SyncWait(c)
 	cancel2()
 	emit("%s kind=duphead store=%d n1=%d n2=%d => start=ok gossip1=%s head1=%s gossip2=%s %s syncwait=%s", prop, storeTo, n1, n2, g1, hres, g2, run.observe(),
+		map[bool]string{true: "ok", false: "timeout"}[werr == nil])
+	_ = run.s.Stop(ctx)
+	c2, cancel3 := context.WithTimeout(ctx, time.Second)
+	_ = run.st.Stop(c2)
+	cancel3()
+}
+
+// prefixOfRangeCase: a sync with target `to` is parked in its getter call while gossip extends the pending range that
+// starts at `to` by `more` further heads: the loop then hands a PREFIX of that range to the store. Everything up to the
+// newest head must end up stored, each height with its own header.
+func prefixOfRangeCase(prop string, first, to, more int) {
+	ctx := context.Background()
+	run := newSyncRun(5)
+	run.script = []string{"holdtok", "holdtok"}
+	sctx, cancel := context.WithTimeout(ctx, 3*time.Second)
+	err := run.s.Start(sctx)
+	cancel()
+	if err != nil {
+		emit("%s kind=burst heads=%d => start=err", prop, to)
+		return
+	}
+	waitReq := func(n int64) {
+		for k := 0; k < 300 && run.nreq.Load() < n; k++ {
+			time.Sleep(time.Millisecond)
+		}
+	}
+	heads := []int{first - 2, first, to}
+	var verdicts []string
+	verdicts = append(verdicts, run.gossip("valid", first-2)) // sync 1, parked in its range request
+	waitReq(1)
+	verdicts = append(verdicts, run.gossip("valid", first)) // two separate pending ranges [first] [to] ...
+	verdicts = append(verdicts, run.gossip("valid", to))
+	run.tokCh <- struct{}{} // sync 1 finishes; sync 2 (target `to`) starts and parks filling the gap below [first]
+	waitReq(2)
+	for h := to + 1; h <= to+more; h++ { // ... and the last range grows beyond the running sync's target
+		verdicts = append(verdicts, run.gossip("valid", h))
+		heads = append(heads, h)
+	}
+	run.tokCh <- struct{}{}
+	run.quiesce()
+	hs := make([]string, len(heads))
+	for i, h := range heads {
+		hs[i] = itoa(h)
+	}
+	c, cancel2 := context.WithTimeout(ctx, time.Second)
+	werr := run.s.SyncWait(c)
+	cancel2()
+	emit("%s kind=burst heads=%s => verdicts=%s %s syncwait=%s", prop, strings.Join(hs, ","), strings.Join(verdicts, ","), run.observe(),
 		map[bool]string{true: "ok", false: "timeout"}[werr == nil])
 	_ = run.s.Stop(ctx)
 	c2, cancel3 := context.WithTimeout(ctx, time.Second)
